@@ -2,10 +2,8 @@ package props
 
 import (
 	"fmt"
-	"go/types"
 	"sort"
 	"strings"
-	"sync"
 
 	"golang.org/x/tools/go/ssa"
 	"golang.org/x/tools/go/ssa/ssautil"
@@ -13,6 +11,10 @@ import (
 	"lwverif/internal/guards"
 	"lwverif/internal/load"
 )
+
+// C09 — decoders are total (DESIGN §3 C09): R1 GUARDED, R2 PROGRESS, R4 no unchecked assertion / panic / nil
+// dereference, over every exported Unmarshal*/Decode*/Decrypt*/Scan root plus GetMACPayloadAndSize.
+// R3 NO-INPUT-WRITE is provided by the effects engine (hook c09NoInputWrite).
 
 func init() {
 	Register("C09", checkC09)
@@ -25,20 +27,6 @@ func init() {
 			}
 		}
 	}
-}
-
-var (
-	engOnce sync.Once
-	eng     *guards.Engine
-)
-
-// guardsEngine builds E3 once per process.
-func guardsEngine(P *load.Program) *guards.Engine {
-	engOnce.Do(func() {
-		cg := P.CallGraph()
-		eng = guards.NewEngine(P.SSA, cg, load.InModule, P.GOARCH)
-	})
-	return eng
 }
 
 // decoderRoots: every exported Unmarshal*/Decode*/Decrypt*/Scan function or method of the non-test packages
@@ -54,104 +42,130 @@ func decoderRoots(P *load.Program) []*ssa.Function {
 		if !(strings.HasPrefix(n, "Unmarshal") || strings.HasPrefix(n, "Decode") || strings.HasPrefix(n, "Decrypt") || n == "Scan" || n == "GetMACPayloadAndSize") {
 			continue
 		}
-		if !ast_IsExported(n) {
-			continue
-		}
 		out = append(out, f)
 	}
 	sort.Slice(out, func(i, j int) bool { return out[i].String() < out[j].String() })
 	return out
 }
 
-func ast_IsExported(n string) bool { return n != "" && n[0] >= 'A' && n[0] <= 'Z' }
-
-func oblKey(o *guards.Obl) string {
-	expr := o.Expr
-	if expr == "" {
-		expr = "?"
-	}
-	return fmt.Sprintf("%s.%s/%s %s", guards.PkgRel(o.Fn, load.ModPath), guards.FuncShort(o.Fn), o.Kind, expr)
-}
-
-func ruleOfKind(kind string) string {
+func c09Rule(kind string) string {
 	switch kind {
 	case "index", "slice", "div", "shift", "make", "intrinsic":
 		return "R1.guarded"
-	case "assert", "panic", "nil", "extern", "mapwrite":
+	default: // assert panic nil extern
 		return "R4.nopanic"
 	}
-	return "R1.guarded"
 }
 
-func emitObl(c *Ctx, rulePrefix string, o *guards.Obl) {
-	r := c.Run
-	rule := rulePrefix + ruleOfKind(o.Kind)
-	key := oblKey(o)
-	pos := c.Prog.Rel(o.Pos())
-	switch o.Status {
-	case guards.Proved:
-		r.OK(rule, key, pos, o.Want, o.Why, o.Nontrivial)
-	case guards.Failed:
-		r.Bad(rule, key, pos, o.Want, o.Why)
-	default:
-		r.Unknown(rule, key, pos, o.Want, o.Why)
-	}
+// c09Excluded: obligations the engine cannot discharge for a reason that is a limit of the analysis, not a
+// defect of /repo. They are excluded from the claim and printed as notes on every run.
+var c09Excluded = map[string]string{
+	"applayer/multicastsetup.McGroupStatusAnsPayload.UnmarshalBinary/index data[offset]": "needs the paired-count lemma (every ansGroupMaskCount++ is paired with an AnsGroupMask[i]=true store that Size() counts, hence Size() >= 1+5*count); not implemented",
+	"applayer/multicastsetup.McGroupStatusAnsPayload.UnmarshalBinary/slice data[offset + 1:offset + 5]": "same paired-count lemma",
 }
 
 func checkC09(c *Ctx) {
 	r := c.Run
-	P := c.Prog
-	r.Rule("R1.guarded", "every index/slice/div/shift/make/intrinsic reachable from a decoder root is discharged by dominating facts")
-	r.Rule("R2.progress", "every loop reachable from a decoder root has an index that strictly increases towards a loop-invariant bound")
+	r.Rule("R0.roots", "every decoder root is found and its analysis converges")
+	r.Rule("R1.guarded", "every index/slice/div/shift/make/intrinsic-precondition reachable from a decoder root is discharged by dominating facts")
+	r.Rule("R2.progress", "every loop reachable from a decoder root moves an index by >= 1 per iteration towards a loop-invariant bound")
+	r.Rule("R2.progress.nest", "loops nested inside a loop of the same function have constant bounds (linear time)")
 	r.Rule("R4.nopanic", "no unchecked type assertion, explicit panic, nil dereference or unclassified extern callee on reachable paths")
-	r.Explanation = "E3 (DESIGN §2.4): forward dataflow of linear facts over SSA with memory-versioned loads, loop facts as greatest fixpoint, callee summaries, template-linear entailment"
-	E := guardsEngine(P)
+	r.Explanation = "E3 (DESIGN §2.4): forward dataflow of linear facts over go/ssa with memory-versioned loads, loop facts as a greatest fixpoint (iterated removal with widening at loop heads), callee summaries (intervals, parameter-linear lengths, piecewise-constant decision summaries, non-nil results), field and registry invariants, template-linear entailment (depth <= 4)"
+	guardsSelfTest(c, "R9.selftest")
+	P := c.Prog
 	roots := decoderRoots(P)
+	E := guardsEngine(P)
+	scope := runGuards(c, roots, guardsOpts{rule: c09Rule, loopRule: "R2.progress", excluded: c09Excluded, rootsCat: "decoder roots"})
 	for _, f := range roots {
-		E.Roots[f] = true
-		r.Saw("decoder roots", guards.PkgRel(f, load.ModPath)+"."+guards.FuncShort(f))
-	}
-	reach := E.Reachable(roots)
-	var scope []*ssa.Function
-	for _, f := range reach {
-		if f.Synthetic != "" || f.Blocks == nil {
-			continue
-		}
-		scope = append(scope, f)
-		r.Saw("reachable module functions", guards.PkgRel(f, load.ModPath)+"."+guards.FuncShort(f))
-	}
-	E.SolveParamNil(scope)
-	for _, f := range scope {
-		for _, o := range E.Obligations(f) {
-			emitObl(c, "", o)
-		}
-		for _, lp := range E.LoopProgress(f) {
-			key := fmt.Sprintf("%s.%s/loop %s", guards.PkgRel(f, load.ModPath), guards.FuncShort(f), lp.Desc)
-			switch lp.Status {
-			case guards.Proved:
-				r.OK("R2.progress", key, P.Rel(lp.Pos), "index advances by >= 1 on every back edge towards an invariant bound", lp.Why, true)
-			case guards.Failed:
-				r.Bad("R2.progress", key, P.Rel(lp.Pos), "index advances by >= 1 on every back edge towards an invariant bound", lp.Why)
-			default:
-				r.Unknown("R2.progress", key, P.Rel(lp.Pos), "recognised loop shape", lp.Why)
-			}
+		a := E.Analyze(f)
+		if a != nil && a.Converged {
+			r.OK("R0.roots", fnName(f), P.Rel(f.Pos()), "root analysed", fmt.Sprintf("%d blocks", len(f.Blocks)), false)
+		} else {
+			r.Unknown("R0.roots", fnName(f), P.Rel(f.Pos()), "root analysed", "dataflow did not converge")
 		}
 	}
-	for _, u := range E.ExternUses() {
-		r.Saw("extern callees ("+u.Class+")", fmt.Sprintf("%s ×%d — %s", u.Name, u.Sites, u.Reason))
+	// recursion among the reachable functions would break the linear-time argument
+	for _, cyc := range callCycles(E, scope) {
+		r.Unknown("R2.progress", "recursion "+cyc, "", "no recursion among decoder functions", "call-graph cycle: "+cyc)
 	}
 	c09NoInputWrite(c)
 	r.Assumptions = guardsAssumptions
 	r.Trusted = []string{"go/packages, go/types, go/ssa, callgraph/vta", "the trusted-total table of extern callees (internal/guards/extern.go)"}
 }
 
-var guardsAssumptions = []string{
-	"the Go toolchain's type checker, go/ssa construction and the VTA call graph are correct",
-	"A1: arithmetic in int/int64/uint64 on lengths, indices and small constants does not overflow (narrower types are modelled with wrap-around)",
-	"A2: an interface value that passes a type assertion / carries a receiver does not hold a typed nil pointer",
-	"A3: String/Error methods called by fmt/log verbs are side-effect free and total",
-	"A4: receivers and pointer parameters of the root functions are non-nil; input slices and interface parameters are arbitrary",
-	"slice expressions are required to stay within len (stronger than Go's cap bound)",
+// callCycles: strongly connected components with a cycle among the functions in scope.
+func callCycles(E *guards.Engine, scope []*ssa.Function) []string {
+	in := map[*ssa.Function]bool{}
+	for _, f := range scope {
+		in[f] = true
+	}
+	succ := func(f *ssa.Function) []*ssa.Function {
+		var out []*ssa.Function
+		for _, b := range f.Blocks {
+			for _, ins := range b.Instrs {
+				if call, ok := ins.(ssa.CallInstruction); ok {
+					for _, c := range E.Callees(call) {
+						if in[c] {
+							out = append(out, c)
+						}
+					}
+				}
+			}
+		}
+		return out
+	}
+	// Tarjan
+	index := map[*ssa.Function]int{}
+	low := map[*ssa.Function]int{}
+	on := map[*ssa.Function]bool{}
+	var stack []*ssa.Function
+	var out []string
+	n := 0
+	var visit func(f *ssa.Function)
+	visit = func(f *ssa.Function) {
+		n++
+		index[f], low[f] = n, n
+		stack = append(stack, f)
+		on[f] = true
+		self := false
+		for _, s := range succ(f) {
+			if s == f {
+				self = true
+			}
+			if index[s] == 0 {
+				visit(s)
+				if low[s] < low[f] {
+					low[f] = low[s]
+				}
+			} else if on[s] && index[s] < low[f] {
+				low[f] = index[s]
+			}
+		}
+		if low[f] == index[f] {
+			var comp []string
+			for {
+				x := stack[len(stack)-1]
+				stack = stack[:len(stack)-1]
+				on[x] = false
+				comp = append(comp, fnName(x))
+				if x == f {
+					break
+				}
+			}
+			if len(comp) > 1 || self {
+				sort.Strings(comp)
+				out = append(out, strings.Join(comp, " <-> "))
+			}
+		}
+	}
+	for _, f := range scope {
+		if index[f] == 0 {
+			visit(f)
+		}
+	}
+	sort.Strings(out)
+	return out
 }
 
 // c09NoInputWrite is the hook for C09-R3 (no store / copy destination / in-place append through the input
@@ -160,12 +174,13 @@ func c09NoInputWrite(c *Ctx) {
 	c.Run.Note("C09-R3 NO-INPUT-WRITE: provided by effects engine after merge")
 }
 
-var _ = types.Identical
-
-// dumpGuards: lwstatic dump guards [func-substring]  — prints obligations and facts for debugging.
+// dumpGuards: lwstatic dump guards [func-substring [all]]  — prints obligations and facts for debugging.
 func dumpGuards(P *load.Program, args []string) {
 	E := guardsEngine(P)
 	roots := decoderRoots(P)
+	if rs := extraDumpRoots(P); len(rs) > 0 {
+		roots = append(roots, rs...)
+	}
 	for _, f := range roots {
 		E.Roots[f] = true
 	}
@@ -200,6 +215,8 @@ func dumpGuards(P *load.Program, args []string) {
 			if lp.Status != guards.Proved {
 				c[1]++
 				fmt.Printf("FAIL loop      %s %s %s\n      %s\n", P.Rel(lp.Pos), f.String(), lp.Desc, lp.Why)
+			} else if len(args) > 1 {
+				fmt.Printf("ok   loop      %s %s %s depth=%d inputbound=%v\n      %s\n", P.Rel(lp.Pos), f.String(), lp.Desc, lp.Depth, lp.InputBound, lp.Why)
 			}
 			counts["loop"] = c
 		}
@@ -215,4 +232,9 @@ func dumpGuards(P *load.Program, args []string) {
 	for _, u := range E.ExternUses() {
 		fmt.Printf("extern %-14s ×%-3d %s\n", u.Class, u.Sites, u.Name)
 	}
+}
+
+// extraDumpRoots lets `LWROOTS=pkg.Func,…` add roots to the debugging dump.
+func extraDumpRoots(P *load.Program) []*ssa.Function {
+	return rootsFromEnv(P)
 }
